@@ -509,7 +509,8 @@ def judge_c14(ctx, ex):
                 yield ("shape %s exists only with inverse_paths although it has outgoing constraints / empty shapes are kept" % label, True, None)
     yield from _same_constraints(ex, _constraint_table(inv["schema"], want_inverse=False), _constraint_table(direct["schema"], want_inverse=False),
                                  "outgoing constraints with inverse_paths vs without")
-    t_inv = _constraint_table(inv["schema"], want_inverse=True)
+    # incoming class-membership constraints (instances that are themselves classes) have no counterpart: reverse(G) keeps the instantiation triples, see stage.reverse_triples
+    t_inv = {k: v for k, v in _constraint_table(inv["schema"], want_inverse=True).items() if k[1] != RDF_TYPE}
     t_rev = {k: v for k, v in _constraint_table(rev["schema"], want_inverse=False).items() if k[1] != RDF_TYPE and k[2] == ("nonliteral",)}
     t_rev = {(k[0], k[1], k[2]): v for k, v in t_rev.items()}
     yield from _same_constraints(ex, t_inv, t_rev, "incoming constraints vs outgoing constraints of reverse(G)")
